@@ -89,20 +89,27 @@ class Analysis:
         """Callee names reachable in func when the expressions in `subst`
         (normalised text -> value) are known: conditions that fold are
         followed on one side only, the others on both."""
+        out = set()
+        for n in self.nodes_under(func, subst, limit):
+            for c in n.calls():
+                out |= set(self.callee_names(func, c))
+        return out
+
+    def nodes_under(self, func, subst, limit=2000):
+        """CFG nodes of func reachable under `subst` (see calls_under)."""
         cfg = self.cfg(func)
         ctx = K.ctx_for(self.repo, func)
         ctx.subst = dict(subst)
         ctx.env = {}
-        seen, todo, out = set(), [cfg.entry], set()
+        seen, todo, out = set(), [cfg.entry], []
         while todo:
             n = todo.pop()
             if n.id in seen:
                 continue
             seen.add(n.id)
+            out.append(n)
             if len(seen) > limit:
                 raise K.Unfoldable('too many nodes')
-            for c in n.calls():
-                out |= set(self.callee_names(func, c))
             if n.kind == 'cond':
                 try:
                     want = bool(K.fold(n.ast, ctx))
